@@ -73,13 +73,15 @@ class HistGen:
         self.epoch = 0
         self.commit_ids = []
         self.app_ids = []
+        self.busy = set()         # members with an outstanding proposal about their own leaf
+        self.allow_rejoin = False  # re-adding a removed member that kept its storage (finding F10)
 
     def fresh(self, pfx):
         self.msg_n += 1
         return f"{pfx}{self.msg_n}"
 
     def outsiders(self):
-        return [n for n in self.pool if n not in self.in_group]
+        return [n for n in self.pool if n not in self.in_group and (self.allow_rejoin or n not in self.removed)]
 
     def start(self, creator=None, opts=None):
         c = creator or self.pool[0]
@@ -116,7 +118,8 @@ class HistGen:
             encrypt = rng.chance(1, 3)
         opts = {"path_required": path_required, "tree_ext": tree_ext, "single_welcome": single_welcome, "encrypt_controls": encrypt}
         self.set_opts(committer, **opts)
-        targeted = {committer}
+        targeted = {committer} | set(self.busy)
+        self.busy = set()
         adds, removes_now = [], []
         n_props = rng.below(4) if n_props is None else n_props
         prop_ids = []
